@@ -154,6 +154,7 @@ CONTROLS = {
     "C11": [
         ("P1: status predicate behind the completeness guard neutralised", [("nomt::overlay::LiveOverlay::new::{closure#1}", neutralise_call("OverlayStatus::is_committed"))], "P1|"),
         ("guardfx: parent-marker check neutralised", [("nomt::overlay::Overlay::commit", neutralise_call("parent_matches_marker"))], "guard=parent_marker"),
+        ("S2: the copy of the remaining stored leaves after the merge loop neutralised", [("nomt::merkle::seek::SeekRequest::continue_leaves_fetch", neutralise_call("Vec::extend_from_slice", 1))], "S2|"),
     ],
     "C12": [
         ("H1: a field of self is moved out before the hand-back", [("nomt::FinishedSession::try_commit_nonblocking", copy_of_self_field_becomes_move())], "H1|"),
@@ -182,6 +183,7 @@ CONTROLS = {
     "C19": [
         ("U1: the set_tombstone of prepare_sync neutralised", [("nomt::bitbox::DB::prepare_sync", neutralise_call("MetaMap::set_tombstone"))], "U1|"),
         ("U2: FreeList::commit in finish neutralised", [("nomt::beatree::allocator::SyncFinisher::finish", neutralise_call("FreeList::commit"))], "U2|"),
+        ("U4: the overflow test of keep_up_to neutralised", [("nomt::beatree::ops::update::leaf_updater::LeafUpdater::keep_up_to", neutralise_call("BaseLeaf::cell"))], "U4|"),
     ],
     "C20": [
         ("D2: flock flags changed to LOCK_EX", [("nomt::sys::unix::try_lock_exclusive::{closure#0}", set_const_in_call("::flock", 1, 2))], "D2|"),
